@@ -25,7 +25,7 @@ import (
 func TestC25(t *testing.T) {
 	m := mon.New(t, "C25")
 	defer m.Done()
-	m.Rule("case(conn) = one connection state for pair (cipher,MAC) = i mod #pairs, round = i div #pairs: hash = round mod 3 of {sha1,sha256,sha512}, start seq = round mod 4 of {0,1,2^32-3,random}, random K (mpint 1..512 bytes / string-encoded 32 bytes), H, session id; 1..40 packets (rounds 0..11: packets 0..24 carry payload length 25*round+j+1 so each pair sees every length 1..300; other lengths from block-size neighbours, 32768±1, powers of two ±1); each packet is written by the real writer and read by sshref AND a real reader, and a second packet with the same length class is written by sshref (padding 255 for packet 0, 4 for packet 1, then min/max/random legal) and read by a real reader. case(max) = per pair payloads maxPacket-64, maxPacket-1, maxPacket (must round-trip), maxPacket+1 (who refuses is recorded) embedded between two small packets, plus the largest legal sshref-written packet_length <= maxPacket. case(transport) = real client and real server (real kex from a list covering sha1/256/384/512 and mpint/string K, optional re-key by either side) over a recording duplex; sshref.Decoder parses both recorded directions from the first packet (none framing, NEWKEYS key switch with independently derived keys, its own sequence counting incl. strict-KEX reset) and must reproduce exactly the (seq, payload) list the sending transport was handed and the seq the receiving transport counted. case(gcmcarry) = AES-GCM keys searched so that the invocation counter carries out of its low byte(s) within the first packets. distinct = (pair, payload length class) and (framing class, hash, seq class); non-trivial = a packet reached all three oracles")
+	m.Rule("case(conn) = one connection state for pair (cipher,MAC) = i mod #pairs, round = i div #pairs: hash = round mod 3 of {sha1,sha256,sha512}, start seq = round mod 4 of {0,1,2^32-3,random}, random K (mpint 1..512 bytes / string-encoded 32 bytes), H, session id; 1..40 packets (rounds 0..11: packets 0..24 carry payload length 25*round+j+1 so each pair sees every length 1..300; other lengths from block-size neighbours, 32768±1, powers of two ±1); each packet is written by the real writer and read by sshref AND a real reader, and a second packet with the same length class is written by sshref (padding 255 for packet 0, 4 for packet 1, then min/max/random legal) and read by a real reader. case(max) = per pair payloads maxPacket-64, maxPacket-1, maxPacket (must round-trip), maxPacket+1 (who refuses is recorded) embedded between two small packets, plus the largest legal sshref-written packet_length <= maxPacket. case(transport) = real client and real server (real kex from a list covering sha1/256/384/512 and mpint/string K, optional re-key by either side) over a recording duplex; sshref.Decoder parses both recorded directions from the first packet (none framing, NEWKEYS key switch with independently derived keys, its own sequence counting incl. strict-KEX reset) and must reproduce exactly the (seq, payload) list the sending transport was handed and the seq the receiving transport counted. case(ivcarry) = raw packet ciphers (caller-chosen key/IV, no key derivation) for every AES-GCM cipher x k=1..8 and every AES-CTR cipher x k=1..16: the counter starts 0..2 steps below the value whose low k bytes are 0xff (k=8 for GCM: 2^64-1 wrap with the fixed field unchanged; k=16 for CTR: 2^128 wrap), 7 packets cross the boundary, each judged by sshref reader, real reader and sshref writer -> real reader. case(gcmcarry) = AES-GCM keys searched so that the invocation counter carries out of its low byte(s) within the first packets. distinct = (pair, payload length class) and (framing class, hash, seq class); non-trivial = a packet reached all three oracles")
 	m.Assume("sshref (h/sshref: RFC 4253/4344/5647, OpenSSH PROTOCOL EtM and chacha20poly1305, own ChaCha20/Poly1305/CTR/CBC/RC4 with KATs) is the specification oracle; Go standard library AES, 3DES, GCM, HMAC, SHA are trusted")
 	m.Assume("alignment rule for *-etm MACs and AEADs (length field excluded) follows RFC 5647 §7 and the OpenSSH implementation that defines the *-etm@openssh.com algorithms")
 
@@ -56,6 +56,33 @@ func TestC25(t *testing.T) {
 		m.Gate("gcm_counter_carry_2byte_conns", len(gcms)*2, "AES-GCM invocation counter carried through two bytes inside a connection")
 	}
 
+	combos, ivGCMs, ivCTRs := ivCombos()
+	if len(combos) > 0 {
+		m.Cases("ivcarry", len(combos)*m.N(3, 30), func(i int64, r *rand.Rand) {
+			c25IVCarry(m, combos[int(i)%len(combos)], int(i)/len(combos), r)
+		})
+		if len(ivGCMs) > 0 {
+			for k := 1; k <= 8; k++ {
+				why := fmt.Sprintf("AES-GCM invocation counter carried through its low %d byte(s), every GCM cipher", k)
+				if k == 8 {
+					why = "AES-GCM invocation counter wrapped from 2^64-1 to 0 (fixed field unchanged), every GCM cipher"
+				}
+				m.Gate(fmt.Sprintf("ivcarry_v0:gcm:low%dff", k), len(ivGCMs), why)
+			}
+		}
+		if len(ivCTRs) > 0 {
+			for _, k := range []int{1, 4, 8, 12, 16} {
+				why := fmt.Sprintf("AES-CTR counter block carried through its low %d byte(s), every CTR cipher", k)
+				switch k {
+				case 8:
+					why = "AES-CTR counter block carried out of its low 64-bit half, every CTR cipher"
+				case 16:
+					why = "AES-CTR 128-bit counter block wrapped to zero, every CTR cipher"
+				}
+				m.Gate(fmt.Sprintf("ivcarry_v0:ctr:low%dff", k), len(ivCTRs), why)
+			}
+		}
+	}
 	m.Gate("pairs_executed_round0", P, "every cipher x MAC pair executed")
 	m.Gate("pairs_seq_wrapped", P, "every pair crossed the 2^32 sequence number wrap")
 	m.Gate("pairs_max_ref_len_accepted_or_known", P, "every pair read a maximum-size packet")
@@ -78,6 +105,9 @@ type c25State struct {
 
 func (s *c25State) wit(seq uint32, payload, wire []byte, extra map[string]any) map[string]any {
 	w := s.c.kex.witness()
+	if s.c.raw {
+		w = map[string]any{"raw_key": mon.FullHex(s.c.keys.Key), "raw_iv": mon.FullHex(s.c.keys.IV), "raw_mac_key": mon.FullHex(s.c.keys.MACKey)}
+	}
 	w["cipher"], w["mac"], w["clientToServer"], w["seq"] = s.c.p.cipher, s.c.p.mac, s.c.c2s, seq
 	w["payload"] = mon.Hex(payload)
 	w["payload_len"] = len(payload)
